@@ -36,7 +36,7 @@ META = dict(
          "<stream>_<module>_<test> made CF-safe (regex [A-Za-z_][A-Za-z0-9_]*; an already safe id is kept verbatim), "
          "values = collected flags with NaN where not evaluated; axis columns iff write_axes, data columns iff "
          "write_data; roll-up column = reference aggregate of all test results. + cf_safe_name on every string of "
-         "Scale: 300- and 1500-row tables (sorted and shuffled, windows scaled), stores with 9-17 streams x 2-3 tests (18-51 results). length 1..3 (thorough 4) over 9 characters. non-trivial = a filter or a window is present, or an unsafe id",
+         "length 1..3 (thorough 4) over 9 characters. Scale: 300- and 1500-row tables (sorted and shuffled, windows scaled), stores with 9-17 streams x 2-3 tests (18-51 results). non-trivial = a filter or a window is present, or an unsafe id",
     bounds={"quick": {"rows": 4, "streams": 2, "filter_items": 2}, "thorough": {"rows": 5, "streams": 3, "filter_items": 2}},
     not_judged=["frames with no result column at all (shape)", "stream ids that sanitise to the same name",
                 "which axis columns appear for a stream that lacks the axis", "the roll-up column under include/exclude filters"],
